@@ -124,7 +124,7 @@ def build_families(scratch, config, util):
         elif vname in ("validate_user", "validate_group"):
             vals = [("nobody" if vname == "validate_user" else "nogroup", None), ("daemon", cli1("daemon")), ("12345", cli1("12345"))]
             vals[0] = (vals[0][0], cli1(vals[0][0]))
-            bad = [("no_such_principal_xyz", cli1("no_such_principal_xyz"))]
+            bad = [("no_such_principal_xyz", cli1("no_such_principal_xyz")), (12.5, None), (["staff"], None)]
         elif vname == "validate_statsd_address":
             vals = [("localhost:8125", cli1("localhost:8125")), ("127.0.0.1:9125", cli1("127.0.0.1:9125"))]
             bad = [(5, None)]
@@ -217,6 +217,9 @@ def load(g, mentions, config_flags=None):
             with open(conf, "w") as f:
                 for i, (k, v) in enumerate(sorted(mentions["file"].items())):
                     f.write(file_source_line(k, v[0], imported=(len(k) + i) % 2 == 0))
+                # names that are not settings are ignored: other spellings of setting names, helper variables
+                f.write("WORKERS = 9\nTimeout = 77\nBIND = ['127.0.0.1:1']\nKeepAlive = 99\nhelper_value = 5\nUSER = 'daemon'\n"
+                        "Max_Requests = 11\n")
         argv = []
         for k, v in mentions.get("cli", {}).items():
             argv += v[1]
